@@ -41,16 +41,18 @@ def main():
             out['patch_error'] = r.stdout[-500:] + r.stderr[-500:]
             print(json.dumps(out, indent=1))
             return 2
-        missing = suite_ok(repo)
+        check_only = '--check-only' in sys.argv     # regression over stored seeds: suite and demo were confirmed when stored
+        missing = [] if check_only else suite_ok(repo)
         out['suite_still_passes'] = not missing
         out['suite_missing'] = missing[:5]
         env = dict(os.environ, PYTHONDONTWRITEBYTECODE='1')
         dp = os.path.abspath(os.path.join(d, demo))
-        r1 = subprocess.run(['/venv/bin/python', dp, repo], capture_output=True, text=True, errors='replace', timeout=600, env=env, cwd=tmp)
-        r0 = subprocess.run(['/venv/bin/python', dp, '/repo'], capture_output=True, text=True, errors='replace', timeout=600, env=env, cwd=tmp)
-        out['demo_fails_with_patch'] = r1.returncode != 0
-        out['demo_passes_without'] = r0.returncode == 0
-        out['demo_output_with_patch'] = (r1.stdout + r1.stderr)[-400:]
+        if not check_only:
+            r1 = subprocess.run(['/venv/bin/python', dp, repo], capture_output=True, text=True, errors='replace', timeout=600, env=env, cwd=tmp)
+            r0 = subprocess.run(['/venv/bin/python', dp, '/repo'], capture_output=True, text=True, errors='replace', timeout=600, env=env, cwd=tmp)
+            out['demo_fails_with_patch'] = r1.returncode != 0
+            out['demo_passes_without'] = r0.returncode == 0
+            out['demo_output_with_patch'] = (r1.stdout + r1.stderr)[-400:]
         props = ALL if '--all' in sys.argv else [prop]
         out['checks'] = {}
         for p in props:
